@@ -1377,8 +1377,12 @@ def op_x_c07(req):
     if req.get("listing"):
         import io
         buf = io.StringIO()
-        x.disasm.disassemble_file(path, buf, req.get("fmt", "classic"))
-        out["listing"] = buf.getvalue()
+        try:
+            x.disasm.disassemble_file(path, buf, req.get("fmt", "classic"))
+            out["listing"] = buf.getvalue()
+        except Exception as e:
+            # a format that cannot list the file is C12's subject; here it is one more result that must not depend on the host
+            out["listing"] = "LISTING RAISED %s: %s" % (type(e).__name__, e)
     return out
 
 
